@@ -13,7 +13,7 @@ from .layout import LayoutShape
 from . import refasm
 
 ID = 'C06'
-BUDGET_S = {'quick': 170, 'thorough': 1800}
+BUDGET_S = {'quick': 170, 'thorough': 3600}
 SHAPE_WALL_S = {'quick': 100, 'thorough': 600}
 FAMILY = ('PIPE: arrangements of global / file (_x) / local (.x) label definitions, global and file constants and references '
           'over <= 3 files (includes), <= 4 local regions, same-named labels in different regions and files, .org and '
@@ -331,6 +331,6 @@ def shapes(tier, seed):
     S.append(KeywordShape('rej:keyword-local-label:fill', items={'main.asm': [G('a'), Lc('fill'), NOP]}))
     S.append(KeywordShape('rej:keyword-constant:zero', items={'main.asm': [GC('zero', 'v1'), NOP]}))
     rnd = random.Random(606 + seed)
-    for i in range(250 if tier == 'quick' else 3000):
+    for i in range(250 if tier == 'quick' else 8000):
         S.append(ScopeShape(f'rnd:{seed}:{i}', items=random_arrangement(rnd)))
     return S
